@@ -253,6 +253,8 @@ def evalIv (st : DState) (name : String) (t : List String) : Eval :=
       | ["doc"] | ["ser"] => same (rWords (intVecC.ser o.m))
           (some (rNats ([o.s.length, o.w, o.s.length * o.w, (o.s.length * o.w + 63) / 64] ++ packBits (o.s.flatMap fun x => bitsOfNat x o.w)))) "iv.ser"
       | "it" :: calls => same (accessIterRun o.m calls) (some (dequeRun (fun x => s!"s{x}") o.s calls)) "iv.iter"
+      -- the owning iterator walks the same items front to back (forward calls only: `accessIterRun` on n / N / l)
+      | "into_it" :: calls => same (accessIterRun o.m calls) (some (dequeRun (fun x => s!"s{x}") o.s calls)) "iv.into_iter"
       | _ => same "driver:unknown-iv-op" none
 where
   specBitLenV (x : Nat) : Nat := if x = 0 then 1 else Nat.log2 x + 1
